@@ -321,7 +321,7 @@ def _kc_job(args):
             return _kc_job((fn,) + tuple(a))
         finally:
             P11.DEFAULT_BACKEND = 'file'
-    mod = kattr if fn.startswith('seq_attr') else kguard if fn.startswith('seq_guard') else kstore if fn in ('seq_reject', 'seq_persist') else ktoken if fn == 'seq_tokens' else kfuzz if fn in ('seq_files', 'seq_api', 'seq_incomplete') else kdiff if fn == 'seq_cross' else kproc if fn in ('seq_proc', 'seq_race') else kenc if fn == 'seq_enc' else kcrypto
+    mod = kattr if fn.startswith('seq_attr') else kguard if fn.startswith('seq_guard') or fn == 'seq_c01_create' else kstore if fn in ('seq_reject', 'seq_persist') else ktoken if fn == 'seq_tokens' else kfuzz if fn in ('seq_files', 'seq_api', 'seq_incomplete') else kdiff if fn == 'seq_cross' else kproc if fn in ('seq_proc', 'seq_race') else kenc if fn == 'seq_enc' else kcrypto
     return getattr(mod, fn)(*a)
 
 
@@ -710,6 +710,17 @@ def check_C18(res, tier, seed):
     finish_proof_side(c, res, 'C18')
 
 
+def check_C01(res, tier, seed):
+    c = prepare('C01', res)
+    n = 400 if tier == 'quick' else 12000
+    stats, samples = run_kapi(c, res, 'C01', 'objects', n, 45 if tier == 'quick' else 65, seed, 'monitor_c01')
+    st2, d2, s2 = run_kcrypto(c, res, 'C01', 'seq_c01_create', 120 if tier == 'quick' else 4000, seed, stream='K-create')
+    res.coverage.update({'evaluations': stats['ops'] + st2['calls'], 'distinct_nontrivial': stats['distinct_traces'] + d2,
+                         'rule': (RULE % 'objects') + '; K-create: five session states (public R/W and R/O, SO, user R/W and R/O) x seven creating paths (create, generate, generate pair, unwrap, two derivations, copy) x CKA_PRIVATE {true, omitted, false} x CKA_TOKEN {false, true, omitted}: no private object without the user logged in, no token object through an R/O session',
+                         'samples': samples, 'k_api': stats, 'k_create': st2, 'traces_validated_against_impl': stats['sequences'] + st2['sequences']})
+    finish_proof_side(c, res, 'C01')
+
+
 def check_C05(res, tier, seed):
     c = prepare('C05', res, extra_vo=['extract/ExtractCodec.vo'])
     codecdrv = vlib.build_ocaml('codecdrv', 'codec_model', 'codecdrv.ml')
@@ -761,7 +772,7 @@ def kapi_check(pid, profile, monitor_name, rule, nq=400, nt=12000, nops=45):
 
 RULE = 'model-guided random call sequences over 2 tokens and up to ~8 sessions (%s profile of tools/genapi.py); a trace is non-trivial when at least 3 calls after the prelude succeed; distinct = distinct (op, rv) sequences'
 CHECKS = {'C03': check_C03, 'C07': check_C07, 'C05': check_C05, 'C09': check_C09, 'C16': check_C16, 'C14': check_C14, 'C17': check_C17, 'C20': check_C20, 'C15': check_C15, 'C06': check_C06, 'C18': check_C18, 'C12': check_C12, 'C02': attr_check('C02'), 'C08': attr_check('C08'), 'C10': check_C10, 'C13': check_C13,
-          'C01': kapi_check('C01', 'objects', 'monitor_c01', RULE % 'objects'),
+          'C01': check_C01,
           'C04': kapi_check('C04', 'pins', 'monitor_c03', RULE % 'pins'),
           'C11': kapi_check('C11', 'handles', 'monitor_c11', RULE % 'handles'),
           'C19': kapi_check('C19', 'find', 'monitor_c19', RULE % 'find')}
